@@ -14,6 +14,8 @@ RULE = ("paths of 1-8 segments of any type mix, segment sizes differing by up to
         "segments and an interior T; distinct by (path, T) hash.")
 ASSUMPTIONS = ["segment lengths are taken from seg.length() (C06 owns their correctness)",
                "paths have positive total length; the leading segment is not zero-length"]
+# coverage-guided second engine (atheris), thorough tier only: (shards, libFuzzer runs per shard)
+FUZZ = {'thorough': (16, 20000)}
 CONFIGS = ['scipy']
 BUDGET = {'quick': 6000, 'thorough': 150000}
 REQUIRED = ['via_reversed', 'near_miss_joint', 'T:boundary', 'T:near_one', 'zero_length_segment', 'discontinuous', 'closed', 'T:interior']
